@@ -14,3 +14,4 @@ import Verif.Properties.C01Move
 #print axioms C01.pipeline_keeps_plain_parts
 #print axioms C01.pipeline_keeps_paths
 #print axioms C01.pipeline_keeps_path_keys
+#print axioms C01.pipeline_adds_no_top_level_part
